@@ -28,7 +28,7 @@ type SA struct {
 	ID int64 `graphql:"id"`
 }
 type SB struct {
-	ID int64 `graphql:"id"`
+	ID int64 `graphql:"id,key"`
 }
 type SC struct {
 	ID int64 `graphql:"id"`
@@ -256,6 +256,17 @@ func (fw *fedWorld) buildService(name string) (*graphql.Schema, error) {
 		}
 	}
 	if serves("B.label") {
+		if serves("Query.bs2") {
+			// a root field on a service that is not the home of B: the gateway
+			// has to fetch everything but label from the root service, by key
+			s.Query().FieldFunc("bs2", func(ctx context.Context) ([]*SB, error) {
+				var out []*SB
+				for _, i := range w.rootBs {
+					out = append(out, &SB{ID: w.bs[i].ID})
+				}
+				return out, nil
+			})
+		}
 		ob := s.Object("B", SB{}, schemabuilder.FetchObjectFromKeys(func(args struct{ Keys []*SB }) []*SB { return args.Keys }))
 		ob.FieldFunc("label", func(ctx context.Context, b *SB, args struct{ P *string }) (string, error) {
 			if err := w.point(ctx, "B.label", b.ID); err != nil {
@@ -387,6 +398,16 @@ func fedBody(c *runner.Ctx) {
 		}
 		homeDesc = append(homeDesc, fmt.Sprintf("%s@%s", f, strings.Join(fw.homes[f], "+")))
 	}
+	// the root field bs2 lives on one non-root service that also serves B.label
+	bs2Home := ""
+	for _, h := range fw.homes["B.label"] {
+		if h != "s1" && c.Choose(2, "bs2-home") == 1 {
+			bs2Home = h
+			fw.homes["Query.bs2"] = []string{h}
+			homeDesc = append(homeDesc, "Query.bs2@"+h)
+			break
+		}
+	}
 	c.Describe("world A=%d B=%d C=%d services=%v homes: %s", w.nA, w.nB, w.nC, names, strings.Join(homeDesc, " "))
 	monolith, err := w.buildSchema()
 	if err != nil {
@@ -427,7 +448,7 @@ func fedBody(c *runner.Ctx) {
 	nReq := 1 + c.Choose(4, "requests")
 	var reqs []*fedRequest
 	for i := 0; i < nReq; i++ {
-		g := &gen{c: c, w: w, budget: 12, noD: true}
+		g := &gen{c: c, w: w, budget: 12, noD: true, bs2: bs2Home != ""}
 		var r *fedRequest
 		if c.Choose(4, "request-kind") == 1 {
 			// a mutation whose response selects fields that live on other services
@@ -452,6 +473,10 @@ func fedBody(c *runner.Ctx) {
 		} else {
 			root := g.genSet("Query", 0)
 			g.addTwins(root)
+			if c.Choose(3, "directives") == 1 {
+				g.dirs = true
+				g.decorate(root)
+			}
 			r = &fedRequest{idx: i, root: root, text: g.text(root, ""), cancelAt: -1}
 		}
 		if fw.faulty && c.Biased(3, 700, "request-cancel") > 0 {
@@ -467,7 +492,7 @@ func fedBody(c *runner.Ctx) {
 		go func() {
 			defer func() { finished++ }()
 			simrt.Sleep(start)
-			q, err := graphql.Parse(r.text, map[string]interface{}{})
+			q, err := graphql.Parse(r.text, dirVars())
 			if err != nil {
 				r.rejected = err
 				return
@@ -522,7 +547,7 @@ func fedBody(c *runner.Ctx) {
 					reqs = append(reqs, r)
 					go func() {
 						defer func() { finished++ }()
-						q, err := graphql.Parse(r.text, map[string]interface{}{})
+						q, err := graphql.Parse(r.text, dirVars())
 						if err != nil {
 							r.rejected = err
 							return
@@ -607,7 +632,7 @@ func fedBody(c *runner.Ctx) {
 		if r.mutation {
 			monoRoot = monolith.Mutation
 		}
-		if q, err := graphql.Parse(r.text, map[string]interface{}{}); err == nil && graphql.PrepareQuery(context.Background(), monoRoot, q.SelectionSet) == nil {
+		if q, err := graphql.Parse(r.text, dirVars()); err == nil && graphql.PrepareQuery(context.Background(), monoRoot, q.SelectionSet) == nil {
 			val, err := graphql.NewExecutor(graphql.NewImmediateGoroutineScheduler()).Execute(context.Background(), monoRoot, nil, q)
 			if err == nil {
 				mono, _ := normalize(val)
